@@ -64,6 +64,7 @@ fn dispatch(cmd: &str, rest: &[String]) -> i32 {
         "fn-trace" => functional::trace(rest),
         "fn-push-trace" => functional::push_trace(rest),
         "gen-trace" => generation::trace(rest),
+        "gen-sched" => generation::sched(rest),
         "ord-replay" => ordering::replay(rest),
         "ord-construct" => ordering::construct_trace(rest),
         "plushy-replay" => plushy::replay(rest),
